@@ -17,8 +17,18 @@ ASSUMPTIONS = ["the DC is conforming (reference DC)", "the security context seal
 
 
 class FakeConn:
-    def __init__(self, conn, rng=None):
-        self.conn, self.rx, self.rng = conn, b"", rng
+    """a connection to the reference DC.  The DC is conforming but not necessarily quick: every reply is taken to arrive SLOW_REPLY_S seconds
+    after the request (a GetKey that first has to create the key for the period); a socket left with a shorter read timeout gives up, as a
+    real one would — without this harness having to wait"""
+    SLOW_REPLY_S = 30.0
+
+    def __init__(self, conn, rng=None, timeout=None):
+        self.conn, self.rx, self.rng, self.timeout = conn, b"", rng, timeout
+
+    def _wait(self):
+        if self.timeout is not None and self.timeout < self.SLOW_REPLY_S:
+            import socket as _s
+            raise _s.timeout("timed out")
 
     def sendall(self, data):
         self.rx += self.conn.feed(bytes(data))
@@ -35,9 +45,11 @@ class FakeConn:
             if self.peeks > 100000:
                 raise RuntimeError("recv budget exceeded (busy loop)")
             return self.rx[:n]
+        self._wait()
         return self._take(n)
 
     def recv_into(self, view, nbytes=0, flags=0):
+        self._wait()
         d = self._take(nbytes or len(view))
         view[:len(d)] = d
         return len(d)
@@ -49,7 +61,7 @@ class FakeConn:
         pass
 
     def settimeout(self, t):
-        pass
+        self.timeout = t
 
 
 @contextlib.contextmanager
@@ -70,7 +82,7 @@ def online_world(dc: refserver.ReferenceDC, legs, header_len, now_ns, rng, chunk
 
         @staticmethod
         def create_connection(addr, timeout=None):
-            return FakeConn(dc.connect(addr[1]), rng if chunked else None)
+            return FakeConn(dc.connect(addr[1]), rng if chunked else None, timeout)
 
     async def open_connection(server, port=135):
         conn = dc.connect(port)
